@@ -367,6 +367,16 @@ void thrift_read_map_begin(thrift_decoder_t* dec,
  * ============================================================================
  */
 
+/* Container elements: a boolean occupies one byte (only a bool FIELD carries
+ * its value in the field header). */
+static void skip_element(thrift_decoder_t* dec, thrift_type_t type) {
+    if (type == THRIFT_TYPE_TRUE || type == THRIFT_TYPE_FALSE) {
+        (void)read_byte_raw(dec);
+        return;
+    }
+    thrift_skip(dec, type);
+}
+
 void thrift_skip(thrift_decoder_t* dec, thrift_type_t type) {
     if (dec->status != CARQUET_OK) {
         return;
@@ -412,7 +422,7 @@ void thrift_skip(thrift_decoder_t* dec, thrift_type_t type) {
             int32_t count;
             thrift_read_list_begin(dec, &elem_type, &count);
             for (int32_t i = 0; i < count && dec->status == CARQUET_OK; i++) {
-                thrift_skip(dec, elem_type);
+                skip_element(dec, elem_type);
             }
             break;
         }
@@ -422,8 +432,8 @@ void thrift_skip(thrift_decoder_t* dec, thrift_type_t type) {
             int32_t count;
             thrift_read_map_begin(dec, &key_type, &value_type, &count);
             for (int32_t i = 0; i < count && dec->status == CARQUET_OK; i++) {
-                thrift_skip(dec, key_type);
-                thrift_skip(dec, value_type);
+                skip_element(dec, key_type);
+                skip_element(dec, value_type);
             }
             break;
         }
